@@ -4,9 +4,10 @@
 //! drops with the dropping thread, arena order, key order, resolution of every id ever returned) and
 //! evaluate the property itself (capacity honoured, prompt removal, no stale ids, payloads destroyed
 //! on the caller's thread only) with a small reference bookkeeping that is independent of the model.
-//! In addition (bottom of the file): a deterministic replay of the witness schedule of the `_refuted`
-//! theorems of finding F22 through the cfg(kira_verif) yield point in kira's resources.rs (compared
-//! with the model's `CSched` entry point), and a free-running two-thread stress (real concurrency
+//! In addition (bottom of the file): a deterministic replay of the schedule of finding F27 (a whole
+//! create between the audio thread's arena removal and its push into the unused ring; repaired in
+//! /repo 38abf69) through the cfg(kira_verif) yield point in kira's resources.rs, compared with the
+//! model's `CSched` entry point (regression), and a free-running two-thread stress (real concurrency
 //! between creates and callbacks through a backend that parks the `Renderer` in a shared slot;
 //! monitors only).
 use crate::backend::*;
@@ -1228,10 +1229,8 @@ fn emit(s: &mut Session, seen: &mut HashSet<String>, kind: Kind, cap: usize, ops
 	let key = if h.nontrivial { Some(format!("{}/{}/{}", kind.name(), cap, ops_term(ops))) } else { None };
 	s.case(kind.name(), term.clone(), &h.obs, key);
 	if let Some(what) = h.fail {
-		// F2: attributed to the known class only if the capacity is 0 AND the failure is the
-		// index-out-of-bounds panic of the create path; anything else is a new failure
-		let f2 = cap == 0 && what.contains("create panicked (index out of bounds");
-		s.fail(term, what, if f2 { Some("capacity_zero") } else { None });
+		// capacity 0 (F2, repaired in /repo 1316c08) is a regression case like any other
+		s.fail(term, what, None);
 	}
 }
 
@@ -1266,8 +1265,6 @@ struct StressOut {
 	limit_len_below: u64,
 	callbacks: u64,
 	removed_reused: u64,
-	/// the failure carries the signature of F22 (unused-ring full while something is still occupied)
-	f22: bool,
 }
 
 fn stress(kind: Kind, cap: usize, iters: usize, rng: &mut Rng) -> StressOut {
@@ -1329,7 +1326,7 @@ fn stress(kind: Kind, cap: usize, iters: usize, rng: &mut Rng) -> StressOut {
 			}
 		})
 	};
-	let mut out = StressOut { fail: None, ok: 0, limit: 0, limit_len_below: 0, callbacks: 0, removed_reused: 0, f22: false };
+	let mut out = StressOut { fail: None, ok: 0, limit: 0, limit_len_below: 0, callbacks: 0, removed_reused: 0 };
 	let name = format!("stress {} capacity {}", kind.name(), cap);
 	let mut alive: Vec<Arc<AtomicBool>> = vec![];
 	let mut all_flags: Vec<Arc<AtomicBool>> = vec![];
@@ -1357,6 +1354,13 @@ fn stress(kind: Kind, cap: usize, iters: usize, rng: &mut Rng) -> StressOut {
 			}
 		})
 	};
+	// the audio thread is up and running before the gameplay side starts
+	{
+		let t0 = std::time::Instant::now();
+		while ncb.load(Ordering::SeqCst) == 0 && t0.elapsed().as_secs() < 5 {
+			std::thread::yield_now();
+		}
+	}
 	for it in 0..iters {
 		if out.fail.is_some() {
 			break;
@@ -1393,8 +1397,13 @@ fn stress(kind: Kind, cap: usize, iters: usize, rng: &mut Rng) -> StressOut {
 					if len_before < cap {
 						out.limit_len_below += 1;
 					}
-					// let the audio thread run when the storage is full (loaded machines)
-					std::thread::yield_now();
+					// let the audio thread complete a callback when the storage is full (loaded machines)
+					let c0 = ncb.load(Ordering::SeqCst);
+					let mut spins = 0;
+					while ncb.load(Ordering::SeqCst) == c0 && spins < 200 && lk(&audio_panic).is_none() {
+						std::thread::yield_now();
+						spins += 1;
+					}
 					// removal precedes destruction, so at most built_ok - destroyed slots can be occupied
 					let destroyed = lk(&sh.drops).len() - rejected;
 					if built_ok - destroyed.min(built_ok) < cap {
@@ -1433,6 +1442,7 @@ fn stress(kind: Kind, cap: usize, iters: usize, rng: &mut Rng) -> StressOut {
 	if let Some(m) = lk(&audio_panic).clone() {
 		// a payload dropped by the unwinding audio thread is reported together with the panic
 		out.fail = Some(match out.fail.take() {
+			Some(f) if f.contains("the audio thread panicked") => f,
 			Some(f) => format!("{f}; the audio thread panicked: {m}"),
 			None => format!("{name}: the audio thread panicked: {m}"),
 		});
@@ -1463,10 +1473,8 @@ fn stress(kind: Kind, cap: usize, iters: usize, rng: &mut Rng) -> StressOut {
 			// payloads removed from the arena and not yet destroyed sit in the unused-ring
 			let destroyed = lk(&sh.drops).len() - rejected;
 			let in_unused = built_ok as i64 - n as i64 - destroyed as i64;
-			out.f22 = kind.selfref() && in_unused == cap as i64;
 			out.fail = Some(format!(
-				"{name}: every resource marked and two callbacks run, but the reported count is {n} ({in_unused} removed payloads await destruction in the unused ring of capacity {cap}{})",
-				if out.f22 { ": the ring is full, removal is stalled" } else { "" }
+				"{name}: every resource marked and two callbacks run, but the reported count is {n} ({in_unused} removed payloads await destruction in the unused ring)"
 			));
 		}
 		if out.fail.is_none() {
@@ -1496,22 +1504,30 @@ fn stress(kind: Kind, cap: usize, iters: usize, rng: &mut Rng) -> StressOut {
 }
 
 // ------------------------------------------------------------------------------------------------
-// F22, deterministic: the witness schedule of `unused_full_refuted` / `prompt_removal_refuted`
-// replayed on the implementation with the cfg(kira_verif) yield point between the removal from the
-// arena and the push into the unused-ring (kira::verif::yield_point in resources.rs)
+// F27, deterministic (regression): the schedule in which a whole create runs between the audio
+// thread's removal of a resource from the arena and its push into the unused-ring, replayed on the
+// implementation with the cfg(kira_verif) yield point (kira::verif::yield_point in resources.rs)
 // ------------------------------------------------------------------------------------------------
 
-struct F22Out {
-	/// outcome of the last callback: [0] ok / [1, panic code]
-	last_cb: Vec<i128>,
-	/// result of the create that runs inside the window: 0 Ok, 1 limit, 2 panic, -1 window not reached
-	create_in_window: i128,
-	count_after: usize,
-	dropped_on_audio: Vec<usize>,
+struct F27Out {
+	/// did the audio thread stop at the yield point
+	window_reached: bool,
+	/// successful creates
+	created: usize,
+	/// completed callbacks
+	callbacks: usize,
+	/// reported count after the callback that has to remove resource 1
+	count_after_removal: usize,
+	/// reported count at the end (after one more create)
+	count_end: usize,
+	/// (payload, dropped on another thread than the caller's), in order
+	drops: Vec<(usize, bool)>,
+	/// drops before the final create
+	drops_before_final_create: usize,
 	audio_panic: Option<String>,
 }
 
-fn f22_replay(kind: Kind) -> F22Out {
+fn f27_replay(kind: Kind) -> F27Out {
 	let slot: RSlot = Arc::new(Mutex::new(None));
 	let mut caps = Capacities::default();
 	let mut main = MainTrackBuilder::new();
@@ -1567,13 +1583,25 @@ fn f22_replay(kind: Kind) -> F22Out {
 			})
 		})
 	};
-	let mut out = F22Out { last_cb: vec![], create_in_window: -1, count_after: 0, dropped_on_audio: vec![], audio_panic: None };
+	let mut out = F27Out {
+		window_reached: false,
+		created: 0,
+		callbacks: 0,
+		count_after_removal: 0,
+		count_end: 0,
+		drops: vec![],
+		drops_before_final_create: 0,
+		audio_panic: None,
+	};
 	// create 0; callback; drop 0
 	let f0 = match create(&mut mgr) {
 		Outcome::Ok(Some(f)) => f,
 		_ => return out,
 	};
-	let _ = spawn_cb(slot.clone()).join();
+	out.created += 1;
+	if let Ok(Outcome::Ok(())) = spawn_cb(slot.clone()).join() {
+		out.callbacks += 1;
+	}
 	f0.store(true, Ordering::SeqCst);
 	// the callback that removes 0 is held between the removal and the push
 	let gate = Arc::new((Mutex::new((false, false)), std::sync::Condvar::new())); // (reached, go)
@@ -1605,15 +1633,12 @@ fn f22_replay(kind: Kind) -> F22Out {
 		g.0
 	};
 	// … the gameplay thread runs a whole create in that window
+	out.window_reached = reached;
 	let mut f1 = None;
 	if reached {
-		match create(&mut mgr) {
-			Outcome::Ok(Some(f)) => {
-				out.create_in_window = 0;
-				f1 = Some(f);
-			}
-			Outcome::Ok(None) => out.create_in_window = 1,
-			_ => out.create_in_window = 2,
+		if let Outcome::Ok(Some(f)) = create(&mut mgr) {
+			out.created += 1;
+			f1 = Some(f);
 		}
 	}
 	{
@@ -1621,22 +1646,31 @@ fn f22_replay(kind: Kind) -> F22Out {
 		lk(m).1 = true;
 		cv.notify_all();
 	}
-	let _ = t.join();
+	match t.join() {
+		Ok(Outcome::Ok(())) => out.callbacks += 1,
+		Ok(Outcome::Panic(_)) => out.audio_panic = Some(last_panic()),
+		_ => {}
+	}
 	kira::verif::set_yield_hook(None);
 	// drop 1; the next callback has to remove it
 	if let Some(f1) = f1 {
 		f1.store(true, Ordering::SeqCst);
 		match spawn_cb(slot.clone()).join() {
-			Ok(Outcome::Ok(())) => out.last_cb = vec![0],
-			Ok(Outcome::Panic(c)) => {
-				out.last_cb = vec![1, c];
-				out.audio_panic = Some(last_panic());
-			}
-			_ => out.last_cb = vec![2],
+			Ok(Outcome::Ok(())) => out.callbacks += 1,
+			Ok(Outcome::Panic(_)) => out.audio_panic = Some(last_panic()),
+			_ => {}
 		}
 	}
-	out.count_after = len_of(&mut mgr);
-	out.dropped_on_audio = lk(&sh.drops).iter().filter(|(_, other)| *other).map(|(p, _)| *p).collect();
+	out.count_after_removal = len_of(&mut mgr);
+	out.drops_before_final_create = lk(&sh.drops).len();
+	// one more create: the caller drains the unused-ring (payloads 0 and 1)
+	if out.audio_panic.is_none() {
+		if let Outcome::Ok(Some(_)) = create(&mut mgr) {
+			out.created += 1;
+		}
+	}
+	out.count_end = len_of(&mut mgr);
+	out.drops = lk(&sh.drops).clone();
 	drop(mgr);
 	out
 }
@@ -1728,45 +1762,46 @@ pub fn run(args: &Args) {
 		}
 		eprintln!("C08 {}: {} cases in {:.1}s", kind.name(), s.model_cases - before, t_kind.elapsed().as_secs_f64());
 	}
-	// (e) F22: the witness schedule of the `_refuted` theorems, replayed deterministically
-	{
-		// ResourceStorage (sounds): the model predicts Panic QueueFull at the last A_push
-		let o = f22_replay(Kind::SoundMain);
-		let term = "CSched false true 1 [0; 2; 3; 4; 5; 7; 6; 6; 100; 4; 5; 0; 2; 3; 7; 5; 7; 6; 6; 101; 4; 5; 7]".to_string();
-		if o.create_in_window == 0 && !o.last_cb.is_empty() {
-			// what the run does at the step where the model stops: [0; summary…] is not observable, a panic is
-			if o.last_cb[0] == 1 {
-				s.case("f22_sound_main", term.clone(), &o.last_cb, Some("f22/sound_main".to_string()));
-			} else {
-				s.eval_only("f22_sound_main_no_panic");
-			}
+	// (e) F27 regression: the racy schedule replayed deterministically, compared with the model
+	for kind in [Kind::SoundMain, Kind::Modulator] {
+		let o = f27_replay(kind);
+		// f27_prefix ++ f27_callback ++ one more create (G_reserve; G_drain_one x2; G_drain_done; G_push)
+		let term = format!(
+			"CSched {} {} 1 [0; 2; 3; 4; 5; 7; 6; 6; 100; 4; 5; 0; 2; 3; 7; 5; 7; 6; 6; 101; 4; 5; 7; 5; 6; 6; 0; 1; 1; 2; 3]",
+			kind.selfref(),
+			kind.prebuild()
+		);
+		let all_caller = o.drops.iter().all(|(_, other)| !*other);
+		let observed: Vec<i128> = if o.audio_panic.is_some() {
+			vec![1, panic_code(o.audio_panic.as_deref().unwrap_or(""))]
 		} else {
-			s.notes.push(format!("F22 replay (sounds): window not reached (create in window: {})", o.create_in_window));
-		}
-		if let Some(m) = &o.audio_panic {
-			s.fail(
-				term,
-				format!(
-					"sound_main capacity 1: create 0; callback; finish 0; [callback removes 0 | create 1 | pushes 0 to unused]; finish 1; callback: the audio thread panicked ({m}); payloads dropped on the audio thread: {:?}",
-					o.dropped_on_audio
-				),
-				if m.contains("unused resource producer is full") { Some("unused_full_race") } else { None },
-			);
-		}
-		// SelfReferentialResourceStorage (modulators): no panic, but the marked modulator is not removed
-		let o = f22_replay(Kind::Modulator);
-		s.eval_only("f22_modulator");
-		if o.create_in_window == 0 && o.last_cb == vec![0] && o.count_after != 0 {
-			s.fail(
-				"CSched true false 1 [0; 2; 3; 4; 5; 7; 6; 6; 100; 4; 5; 0; 2; 3; 7; 5; 7; 6; 6; 101; 4; 5; 7; 6; 6]".to_string(),
-				format!(
-					"modulator capacity 1: create 0; callback; finish 0; [callback removes 0 | create 1 | pushes 0 to unused]; finish 1; callback: modulator 1 was present and finished at the start of the callback and is still counted after it (num_modulators = {})",
-					o.count_after
-				),
-				Some("unused_full_race"),
-			);
+			vec![0, o.count_end as i128, o.created as i128, o.callbacks as i128, o.drops.len() as i128, if all_caller { 1 } else { 0 }]
+		};
+		s.case(&format!("f27_{}", kind.name()), term.clone(), &observed, Some(format!("f27/{}", kind.name())));
+		let hist = format!(
+			"{} capacity 1: create 0; callback; finish 0; [callback removes 0 | create 1 | callback pushes 0 to the unused ring, inserts 1]; finish 1; callback; create 2",
+			kind.name()
+		);
+		if !o.window_reached {
+			s.fail(term.clone(), format!("{hist}: the audio thread did not reach the yield point between arena removal and unused-ring push (hook missing?)"), None);
 		} else if let Some(m) = &o.audio_panic {
-			s.fail("f22 modulator".to_string(), format!("modulator capacity 1, F22 schedule: the audio thread panicked: {m}"), None);
+			s.fail(term.clone(), format!("{hist}: the audio thread panicked: {m}"), None);
+		} else if o.count_after_removal != 0 {
+			s.fail(
+				term.clone(),
+				format!("{hist}: resource 1 was present and finished at the start of the last callback and is still counted after it (count {})", o.count_after_removal),
+				None,
+			);
+		} else if !all_caller {
+			s.fail(term.clone(), format!("{hist}: payloads dropped on another thread than the caller's: {:?}", o.drops), None);
+		} else if o.drops_before_final_create != 0 || o.drops.iter().map(|(p, _)| *p).collect::<Vec<_>>() != vec![0, 1] {
+			s.fail(
+				term.clone(),
+				format!("{hist}: expected payloads 0 and 1 to be destroyed by the final create and nothing before it; drops {:?} ({} before it)", o.drops, o.drops_before_final_create),
+				None,
+			);
+		} else if o.count_end != 1 || o.created != 3 {
+			s.fail(term.clone(), format!("{hist}: {} creates succeeded, final count {}", o.created, o.count_end), None);
 		}
 	}
 	// (d) free-running two-thread stress
@@ -1783,9 +1818,7 @@ pub fn run(args: &Args) {
 				race += o.limit_len_below;
 				reuse += o.removed_reused;
 				if let Some(what) = o.fail.clone() {
-					// F22: the unused-ring overflow (and the payload the unwinding audio thread drops)
-					let f22 = what.contains("unused resource producer is full") || o.f22;
-					s.fail(format!("stress {} {} seed {}", kind.name(), cap, args.seed), what, if f22 { Some("unused_full_race") } else { None });
+					s.fail(format!("stress {} {} seed {}", kind.name(), cap, args.seed), what, None);
 				}
 			}
 		}
